@@ -791,6 +791,10 @@ impl World {
                 let Some(dp) = self.participant(*p) else { return Res::Skipped("no participant") };
                 Res::Handles(dp.get_discovered_participants().await.map(|v| v.into_iter().map(hd).collect()).map_err(E::from))
             }
+            Op::Whoami { p } => {
+                let Some(dp) = self.participant(*p) else { return Res::Skipped("no participant") };
+                Res::Handle(hd(dp.get_instance_handle()))
+            }
             Op::WatchDiscovered { p, period_us } => {
                 let Some(dp) = self.participant(*p) else { return Res::Skipped("no participant") };
                 let mut last: Option<Vec<Hd>> = None;
